@@ -3,7 +3,7 @@ import core
 
 OPS = ["quat_mul", "quat_add", "quat_sub", "quat_dot", "quat_neg", "quat_conj", "quat_inv", "quat_norm2", "quat_muls",
        "quat_divs", "quat_mulv3", "quat_mulv4", "quat_compose", "quat_conv", "quat_normalized", "quat_magnitude",
-       "from_to", "angle_axis", "angle_axis_f"]
+       "from_to", "angle_axis", "angle_axis_f", "from_to_f"]
 
 
 OPS_S = ["quat_mul", "quat_add", "quat_sub", "quat_dot", "quat_neg", "quat_conj", "quat_norm2", "quat_muls", "quat_mulv3",
